@@ -319,6 +319,9 @@ fcppt::container::raw_vector::object<T, A>::insert(iterator const _position, T c
   // NOLINTNEXTLINE(readability-else-after-return,llvm-else-after-return)
   else
   {
+    // _value may refer to an element of this container that is about to be shifted.
+    T const value(_value);
+
     if (!this->empty())
     {
       std::copy_backward(
@@ -328,7 +331,7 @@ fcppt::container::raw_vector::object<T, A>::insert(iterator const _position, T c
           std::next(this->data_end()));
     }
 
-    *_position = _value;
+    *_position = value;
 
     ++this->impl_.last_;
 
@@ -368,12 +371,15 @@ void fcppt::container::raw_vector::object<T, A>::insert(
   }
   else
   {
+    // _value may refer to an element of this container that is about to be shifted.
+    T const value(_value);
+
     if (!this->empty())
     {
       std::copy_backward(_position, this->end(), this->data_end() + _size);
     }
 
-    std::uninitialized_fill(_position, _position + _size, _value);
+    std::uninitialized_fill(_position, _position + _size, value);
 
     this->impl_.last_ += _size;
   }
